@@ -90,3 +90,287 @@ def encode_actions(actions):
     else:
       raise ValueError("unknown action kind %r" % (k,))
   return out
+
+
+# ===========================================================================
+# C13: the state behind the replies
+
+_SIMPLE_FIELDS = [
+  ("in_port", cb.OFPFW_IN_PORT), ("dl_vlan", cb.OFPFW_DL_VLAN), ("dl_src", cb.OFPFW_DL_SRC), ("dl_dst", cb.OFPFW_DL_DST),
+  ("dl_type", cb.OFPFW_DL_TYPE), ("nw_proto", cb.OFPFW_NW_PROTO), ("tp_src", cb.OFPFW_TP_SRC), ("tp_dst", cb.OFPFW_TP_DST),
+  ("dl_vlan_pcp", cb.OFPFW_DL_VLAN_PCP), ("nw_tos", cb.OFPFW_NW_TOS),
+]
+
+
+def canon_match(m):
+  """Canonical form of a decoded ofp_match: wildcarded fields become None,
+  nw_src/nw_dst become (prefix value, number of wildcarded low bits 0..32)."""
+  wc = m["wildcards"]
+  c = {}
+  for name, bit in _SIMPLE_FIELDS:
+    c[name] = None if wc & bit else m[name]
+  for name, shift in (("nw_src", cb.OFPFW_NW_SRC_SHIFT), ("nw_dst", cb.OFPFW_NW_DST_SHIFT)):
+    n = min(32, (wc >> shift) & 0x3f)
+    mask = (0xffffffff << n) & 0xffffffff
+    c[name] = (m[name] & mask, n)
+  return c
+
+
+def canon_key(c):
+  return tuple((k, c[k]) for k in sorted(c))
+
+
+def subsumes(general, specific):
+  """OF 1.0 non-strict matching of a flow-mod / stats-request description against a flow entry:
+  every field of `general` is wildcarded or equal to the (non-wildcarded) field of `specific`."""
+  for name, _ in _SIMPLE_FIELDS:
+    g = general[name]
+    if g is None:
+      continue
+    if specific[name] is None or specific[name] != g:
+      return False
+  for name in ("nw_src", "nw_dst"):
+    gv, gn = general[name]
+    sv, sn = specific[name]
+    if gn < sn:
+      return False
+    mask = (0xffffffff << gn) & 0xffffffff
+    if (sv & mask) != gv:
+      return False
+  return True
+
+
+def frame_fields(frame, in_port):
+  """Header fields of an untagged Ethernet II frame whose ethertype is neither IP nor ARP
+  (the only frames the C13 histories inject): OF 1.0 section 3.4."""
+  dl_type = struct.unpack("!H", frame[12:14])[0]
+  if dl_type in (0x0800, 0x0806, 0x8100) or dl_type < 0x0600:
+    raise ValueError("frame_fields only knows plain non-IP Ethernet II frames")
+  return {"in_port": in_port, "dl_vlan": 0xffff, "dl_src": bytes(frame[6:12]), "dl_dst": bytes(frame[0:6]),
+          "dl_type": dl_type, "nw_proto": 0, "tp_src": 0, "tp_dst": 0, "dl_vlan_pcp": 0, "nw_tos": 0,
+          "nw_src": 0, "nw_dst": 0}
+
+
+def match_covers_frame(c, f):
+  for name, _ in _SIMPLE_FIELDS:
+    if c[name] is not None and c[name] != f[name]:
+      return False
+  for name in ("nw_src", "nw_dst"):
+    v, n = c[name]
+    mask = (0xffffffff << n) & 0xffffffff
+    if (f[name] & mask) != v:
+      return False
+  return True
+
+
+def output_ports_of(actions):
+  """ports named by OFPAT_OUTPUT actions of a decoded action list"""
+  out = []
+  for a in actions:
+    if a["type"] == cb.OFPAT_OUTPUT and a["len"] == 8:
+      out.append(struct.unpack("!H", a["raw"][4:6])[0])
+  return out
+
+
+class Flow(object):
+  def __init__(self, match_raw, priority, cookie, idle, hard, flags, actions_raw):
+    self.match_raw = bytes(match_raw)
+    self.match = canon_match(cb.decode_match(match_raw))
+    self.priority = priority
+    self.cookie = cookie          # None = not judged (after MODIFY)
+    self.idle, self.hard, self.flags = idle, hard, flags
+    self.set_actions(actions_raw)
+    self.packets = 0
+    self.bytes = 0
+    self.maybe = False            # True: the spec lets the switch reject the flow-mod that made it
+
+  def set_actions(self, actions_raw):
+    self.actions_raw = bytes(actions_raw)
+    self.actions = cb.decode_actions(actions_raw)
+
+  def key(self):
+    return (canon_key(self.match), self.priority)
+
+
+_JUDGED_CONFIG = (cb.OFPPC_PORT_DOWN | cb.OFPPC_NO_RECV | cb.OFPPC_NO_RECV_STP | cb.OFPPC_NO_FLOOD |
+                  cb.OFPPC_NO_FWD | cb.OFPPC_NO_PACKET_IN)
+
+
+class SwitchShadow(object):
+  """What an OpenFlow 1.0 switch with one flow table must report, given the messages it has
+  processed.  Ports are seeded from the switch's first features reply (their numbers, addresses
+  and names are the implementation's business); everything after that evolves by the spec.
+
+  dirty[...]   state-changing messages since the last barrier: a probe's content is only
+               judged when the part of the state it reports is clean (OF 1.0 section 4.6 /
+               barrier: without a barrier the switch may reorder).
+  *_known      False once something happened whose outcome the specification leaves open."""
+
+  JUDGED_CONFIG = _JUDGED_CONFIG
+
+  def __init__(self, n_buffers, miss_send_len, ports):
+    self.miss_send_len = miss_send_len
+    self.flags = 0
+    self.flags_known = True
+    self.ports = {}
+    for p in ports:
+      self.ports[p["port_no"]] = {"hw_addr": p["hw_addr"], "name": p["name"], "config": p["config"]}
+    self.ctr = dict((n, {"rx_packets": 0, "rx_bytes": 0, "tx_packets": 0, "tx_bytes": 0}) for n in self.ports)
+    self.flows = []
+    self.lookup = 0
+    self.matched = 0
+    self.dirty = {"config": False, "ports": False, "table": False}
+    self.table_known = True        # which flows exist
+    self.flowctr_known = True      # per-flow packet/byte counters
+    self.tablectr_known = True     # lookup / matched
+    self.rx_known = True
+    self.tx_known = True
+    self.pool = BufferPool(n_buffers)
+
+  # ---- messages
+  def barrier(self):
+    for k in self.dirty:
+      self.dirty[k] = False
+
+  def set_config(self, flags, miss_send_len):
+    self.miss_send_len = miss_send_len
+    self.flags = flags
+    self.flags_known = flags in (0, 1, 2)
+    self.dirty["config"] = True
+
+  def port_mod(self, port_no, hw_addr, config, mask):
+    """Returns None when accepted, else the (type, code) the spec names."""
+    p = self.ports.get(port_no)
+    if p is None:
+      return (cb.OFPET_PORT_MOD_FAILED, cb.OFPPMFC_BAD_PORT)
+    if p["hw_addr"] != bytes(hw_addr):
+      return (cb.OFPET_PORT_MOD_FAILED, cb.OFPPMFC_BAD_HW_ADDR)
+    p["config"] = (p["config"] & ~mask) | (config & mask)
+    if mask:
+      self.dirty["ports"] = True
+    return None
+
+  def select(self, desc, out_port, strict, priority=None):
+    """flows described by a flow-mod / stats request"""
+    res = []
+    for f in self.flows:
+      if strict:
+        if canon_key(f.match) != canon_key(desc) or f.priority != priority:
+          continue
+      elif not subsumes(desc, f.match):
+        continue
+      if out_port != cb.OFPP_NONE and out_port not in output_ports_of(f.actions):
+        continue
+      res.append(f)
+    return res
+
+  def flow_mod(self, match_raw, command, priority, cookie, idle, hard, flags, out_port, actions_raw, maybe=False):
+    """Apply a well-formed flow-mod with a known command (no buffer handling here).
+    maybe=True (ADD only): the switch may just as well reject it (unknown buffer, port or action)."""
+    self.dirty["table"] = True
+    desc = canon_match(cb.decode_match(match_raw))
+    if flags & (cb.OFPFF_EMERG | cb.OFPFF_CHECK_OVERLAP):
+      self.table_known = False
+      return
+    if maybe:
+      if command != cb.OFPFC_ADD:
+        raise ValueError("only an ADD can be uncertain")
+      if [f for f in self.select(desc, cb.OFPP_NONE, True, priority) if not f.maybe]:
+        self.table_known = False     # either the old or the new entry is there
+        return
+      for f in self.select(desc, cb.OFPP_NONE, True, priority):
+        self.flows.remove(f)
+      fl = Flow(match_raw, priority, cookie, idle, hard, flags, actions_raw)
+      fl.maybe = True
+      self.flows.append(fl)
+      return
+    if command in (cb.OFPFC_MODIFY, cb.OFPFC_MODIFY_STRICT):
+      hit = self.select(desc, cb.OFPP_NONE, command == cb.OFPFC_MODIFY_STRICT, priority)
+      if hit:
+        for f in hit:
+          f.set_actions(actions_raw)
+          f.cookie = None
+        return
+      command = cb.OFPFC_ADD
+    if command == cb.OFPFC_ADD:
+      for f in self.select(desc, cb.OFPP_NONE, True, priority):
+        self.flows.remove(f)
+      self.flows.append(Flow(match_raw, priority, cookie, idle, hard, flags, actions_raw))
+      return
+    if command in (cb.OFPFC_DELETE, cb.OFPFC_DELETE_STRICT):
+      for f in self.select(desc, out_port, command == cb.OFPFC_DELETE_STRICT, priority):
+        self.flows.remove(f)
+      if (command == cb.OFPFC_DELETE and out_port == cb.OFPP_NONE and not self.flows
+          and canon_key(desc) == canon_key(canon_match(cb.decode_match(cb.match())))):
+        self.table_known = True      # delete-everything: the table is certainly empty again
+        self.flowctr_known = True
+      return
+    raise ValueError("flow_mod with unknown command %r" % (command,))
+
+  # ---- data plane
+  def _blocked(self, port_no):
+    return bool(self.ports[port_no]["config"] & (cb.OFPPC_NO_FWD | cb.OFPPC_PORT_DOWN))
+
+  def apply_actions(self, actions, frame, in_port):
+    """Account for a decoded action list executed on a frame (tx counters).
+    Returns the list of max_len of outputs to the controller."""
+    ctl = []
+    for a in actions:
+      if a["type"] != cb.OFPAT_OUTPUT or a["len"] != 8:
+        self.tx_known = False          # anything else is another property's business
+        continue
+      port, max_len = struct.unpack("!HH", a["raw"][4:8])
+      if port < cb.OFPP_MAX:
+        targets = [port] if (port in self.ports and port != in_port) else []
+      elif port == cb.OFPP_IN_PORT:
+        targets = [in_port] if in_port in self.ports else []
+      elif port == cb.OFPP_FLOOD:
+        targets = [p for p in self.ports if p != in_port and not self.ports[p]["config"] & cb.OFPPC_NO_FLOOD]
+      elif port == cb.OFPP_ALL:
+        targets = [p for p in self.ports if p != in_port]
+      elif port == cb.OFPP_CONTROLLER:
+        ctl.append(max_len)
+        targets = []
+      else:
+        self.tx_known = self.rx_known = self.tablectr_known = self.flowctr_known = False
+        targets = []
+      for p in targets:
+        if self._blocked(p):
+          continue
+        self.ctr[p]["tx_packets"] += 1
+        self.ctr[p]["tx_bytes"] += len(frame)
+    return ctl
+
+  def receivable(self, in_port):
+    p = self.ports.get(in_port)
+    return p is not None and not p["config"] & (cb.OFPPC_PORT_DOWN | cb.OFPPC_NO_RECV)
+
+  def frame(self, frame, in_port):
+    """A frame arrives on a port that is up and receiving.
+    Returns ("miss", None) | ("hit", flow) | ("ambiguous", None)."""
+    self.ctr[in_port]["rx_packets"] += 1
+    self.ctr[in_port]["rx_bytes"] += len(frame)
+    self.lookup += 1
+    if not self.table_known:
+      self.tablectr_known = self.flowctr_known = self.tx_known = False
+      return ("ambiguous", None)
+    f = frame_fields(frame, in_port)
+    cands = [fl for fl in self.flows if match_covers_frame(fl.match, f)]
+    if not cands:
+      return ("miss", None)
+    top = max(fl.priority for fl in cands)
+    best = [fl for fl in cands if fl.priority == top]
+    if any(fl.maybe for fl in cands):
+      # a flow that may or may not exist covers the frame
+      self.tablectr_known = self.flowctr_known = self.tx_known = False
+      return ("ambiguous", None)
+    self.matched += 1
+    if len(best) > 1:
+      # two flows of equal priority cover the frame: OF 1.0 leaves the choice open
+      self.flowctr_known = self.tx_known = False
+      return ("ambiguous", None)
+    fl = best[0]
+    fl.packets += 1
+    fl.bytes += len(frame)
+    self.apply_actions(fl.actions, frame, in_port)
+    return ("hit", fl)
